@@ -148,6 +148,9 @@ def tr_expr(e, cx):
                     return '(ECustomNew %s %s)' % (cstr(ty), tr_expr(e['args'][0], cx))
         return unsupported(e)
     if k == 'mcall':
+        wrap = {'wrapping_shl': 'OShl', 'wrapping_shr': 'OShr', 'wrapping_add': 'OAdd', 'wrapping_sub': 'OSub', 'wrapping_mul': 'OMul'}
+        if e['method'] in wrap and len(e['args']) == 1 and e['turbofish'] == '':
+            return '(EWrapBin %s %s %s)' % (wrap[e['method']], tr_expr(e['recv'], cx), tr_expr(e['args'][0], cx))
         if e['args'] == [] and e['turbofish'] == '':
             if e['method'] == 'value':
                 return '(EUValue %s)' % tr_expr(e['recv'], cx)
@@ -193,6 +196,10 @@ def _fold(stmts, i, cx, final):
                 and len(e['args']) == 1 and s['semi'] and not last:
             c = tr_expr(e['args'][0], cx)
             return '(EAssert %s %s)' % (c, _fold(stmts, i + 1, cx, final))
+        if e.get('e') == 'macro' and e['name'] == 'debug_assert' and e['path'] == ['debug_assert'] and e.get('args') \
+                and len(e['args']) == 1 and s['semi'] and not last:
+            c = tr_expr(e['args'][0], cx)
+            return '(EDebugAssert %s %s)' % (c, _fold(stmts, i + 1, cx, final))
         if last:
             if final is not None:
                 return final(s, cx)
